@@ -9,11 +9,12 @@ Model of the binary message codec of `nasdaq_protocols.common.message`:
   * `itch|ouch|sqf/core.py` — the message id is `Byte.to_bytes(indicator)` / `Byte.from_bytes`
 
 Transcribed line by line, quirks included:
-  reported length and produced bytes are separate results; a fixed string is padded but never truncated; a char is `x[:1]`;
+  reported length and produced bytes are separate results; a fixed string is padded and truncated to its width; a char is
+  `x[:1].ljust(1)`; a fixed string is read back through `strip(' ')`;
   a variable string writes `len` through the *signed* 2-byte little-endian packer; decoding slices and never raises on short
   input (Python slice semantics incl. negative indices, which a negative string length produces); an optional record is absent
   when the value is `None` *or* its store is empty; an array whose element type is an optional record uses the plain record
-  packer (`super(RecordWithPresentBit, type)`); a record with no fields cannot be encoded (`segments[0]` → IndexError);
+  packer (`super(RecordWithPresentBit, type)`); a record with no fields encodes to zero bytes without touching the value;
   a record store is a partial map and reads fall back to the field default, then the type default.
 
 Outside the model (never produced by the correspondence harness): two fields of one record with the same name (the code resolves the
@@ -133,10 +134,10 @@ def truthy : Val → Bool
   | .none => false
   | .list xs => !xs.isEmpty
 
-/-- `CharAscii.to_bytes` / `CharIso8599.to_bytes`: `(1, x[:1].encode(cs))` -/
+/-- `CharAscii.to_bytes` / `CharIso8599.to_bytes`: `(1, x[:1].ljust(1).encode(cs))` -/
 def encChar (iso : Bool) : Val → Except Err (Nat × Bytes)
   | .str cs => do
-      let b ← encodeCs iso (cs.take 1)
+      let b ← encodeCs iso (ljust (cs.take 1) 1)
       pure (1, b)
   | .list _ => .error .attr
   | _ => .error .type
@@ -152,10 +153,10 @@ def encStr (iso : Bool) : Val → Except Err (Nat × Bytes)
       .error .attr
   | _ => .error .type
 
-/-- `FixedAsciiString.to_bytes` / `FixedIsoString.to_bytes`: pad, never truncate, report `self.length` -/
+/-- `FixedAsciiString.to_bytes` / `FixedIsoString.to_bytes`: pad, then `value[:self.length]`, report `self.length` -/
 def encFixed (iso : Bool) (n : Nat) (rj : Bool) : Val → Except Err (Nat × Bytes)
   | .str cs => do
-      let b ← encodeCs iso (if rj then rjust cs n else ljust cs n)
+      let b ← encodeCs iso ((if rj then rjust cs n else ljust cs n).take n)
       pure (n, b)
   | .recd _ => .error .key
   | _ => .error .attr
@@ -187,11 +188,11 @@ def getField (st : Store) (name : Nat) (ty : Ty) (dflt : Val) : Val :=
     | .none => typeDefault ty
     | d => d
 
-/-- what `Record.to_bytes(cls, record)` needs of `record`: with no fields `segments[0]` raises IndexError before the record is
-    touched; otherwise `record.get_field_value` must exist -/
+/-- what `Record.to_bytes(cls, record)` needs of `record`: with no fields the record is never touched (`if not segments:
+    return 0, b''`); otherwise `record.get_field_value` must exist -/
 def asStore (noFields : Bool) : Val → Except Err Store
   | v =>
-    if noFields then .error .index
+    if noFields then .ok []
     else match v with
       | .recd st => .ok st
       | _ => .error .attr
@@ -277,7 +278,7 @@ def decode : Ty → Bytes → Except Err (Int × Val)
   | .str iso, b => decStr iso b
   | .fixed iso n _, b => do
       let s ← decodeCs iso (b.take n)
-      pure ((n : Int), .str (strip s))
+      pure ((n : Int), .str (stripBy (fun c => c == 32) s))      -- `.strip(' ')`
   | .record fs, b => do
       let r ← decFieldsAt fs b 0
       pure (r.1, .recd r.2)
@@ -458,9 +459,9 @@ end
 
 /-! ### the domain of the round-trip property -/
 
-/-- no `str.isspace()` character at either end (what `strip()` would remove) -/
+/-- no pad character (space) at either end: those cannot survive a space-padded field (`strip(' ')` removes them) -/
 def edgeClean (cs : Str) : Bool :=
-  cs.head?.all (fun c => !isSpace c) && cs.getLast?.all (fun c => !isSpace c)
+  cs.head?.all (fun c => !(c == 32)) && cs.getLast?.all (fun c => !(c == 32))
 
 def inCharset (iso : Bool) (cs : Str) : Bool := cs.all (fun c => decide (c < (if iso then 256 else 128)))
 
@@ -484,17 +485,18 @@ def wf : Ty → Val → Bool
       | .str cs => decide (cs.length ≤ n) && inCharset iso cs && edgeClean cs
       | _ => false
   | .record fs, v => match v with
-      | .recd st => !fs.isNil && wfFields fs st
+      | .recd st => wfFields fs st
       | _ => false
   | .optrec fs, v => match v with
       | .none => true
       | .recd [] => true
+      -- a non-empty store belongs to a class that has fields (nothing can be assigned to a class without fields)
       | .recd st => !fs.isNil && wfFields fs st
       | _ => false
   | .arr (.optrec fs) cs csg _, v => match v with
       | .list xs => intInRange cs csg (xs.length : Int) &&
           xs.all fun x => match x with
-                  | .recd st => !fs.isNil && wfFields fs st
+                  | .recd st => wfFields fs st
                   | _ => false
       | _ => false
   | .arr elem cs csg _, v => match v with
@@ -504,38 +506,6 @@ def wf : Ty → Val → Bool
 def wfFields : Flds → Store → Bool
   | .nil, _ => true
   | .cons name ty d rest, st => wf ty (getField st name ty d) && !rest.hasName name && wfFields rest st
-end
-
-mutual
-/-- the values on which the code *as it is* reports the length it produced: no empty `char`, no fixed string longer than its
-    width anywhere in the value (see `Witness/C01.lean` for what happens otherwise).  Values that do not encode at all are
-    left unconstrained. -/
-def lenSafe : Ty → Val → Bool
-  | .char _, v => match v with
-      | .str cs => !cs.isEmpty
-      | _ => true
-  | .fixed _ n _, v => match v with
-      | .str cs => decide (cs.length ≤ n)
-      | _ => true
-  | .record fs, v => match v with
-      | .recd st => lenSafeF fs st
-      | _ => true
-  | .optrec fs, v => match v with
-      | .recd st => lenSafeF fs st
-      | _ => true
-  | .arr (.optrec fs) _ _ _, v => match v with
-      | .list xs => xs.all fun x => match x with
-          | .recd st => lenSafeF fs st
-          | _ => true
-      | _ => true
-  | .arr elem _ _ _, v => match v with
-      | .list xs => xs.all fun x => lenSafe elem x
-      | .str cs => cs.all fun c => lenSafe elem (.str [c])
-      | _ => true
-  | _, _ => true
-def lenSafeF : Flds → Store → Bool
-  | .nil, _ => true
-  | .cons name ty d rest, st => lenSafe ty (getField st name ty d) && lenSafeF rest st
 end
 
 /-- a message the registry resolves: indicator fits the id byte, body well formed -/
